@@ -5,9 +5,11 @@ import (
 	"crypto/sha256"
 	"encoding/hex"
 	"fmt"
+	"reflect"
 	"sort"
 	"strconv"
 	"strings"
+	"sync"
 
 	"github.com/robfig/soy"
 	"github.com/robfig/soy/ast"
@@ -140,8 +142,66 @@ func compile(files []core.File, order []int, globals map[string]interface{}) (re
 	for _, i := range order {
 		b.AddTemplateString(files[i].Name, files[i].Text)
 	}
-	b.AddGlobalsMap(toGlobals(globals))
+	// the globals reach the bundle as TWO caller-owned maps, and every repetition hands the
+	// bundle the very same Go objects (as a program that re-creates its bundle would)
+	src := sourcesOf(globals)
+	b.AddGlobalsMap(src.common)
+	if src.extra != nil {
+		b.AddGlobalsMap(src.extra)
+	}
 	return b.Compile()
+}
+
+// globalSources are the caller-owned globals maps of one case.
+type globalSources struct {
+	common, extra         data.Map
+	commonKeys, extraKeys []string
+}
+
+var sourcesByMap sync.Map // address of Case.Globals -> *globalSources
+
+func sortedKeys(m data.Map) []string {
+	var ks []string
+	for k := range m {
+		ks = append(ks, k)
+	}
+	sort.Strings(ks)
+	return ks
+}
+
+func sourcesOf(globals map[string]interface{}) *globalSources {
+	key := reflect.ValueOf(globals).Pointer()
+	if v, ok := sourcesByMap.Load(key); ok {
+		return v.(*globalSources)
+	}
+	all := toGlobals(globals)
+	ks := sortedKeys(all)
+	src := &globalSources{common: data.Map{}}
+	for i, k := range ks {
+		if len(ks) >= 2 && i >= (len(ks)+1)/2 {
+			if src.extra == nil {
+				src.extra = data.Map{}
+			}
+			src.extra[k] = all[k]
+		} else {
+			src.common[k] = all[k]
+		}
+	}
+	src.commonKeys, src.extraKeys = sortedKeys(src.common), sortedKeys(src.extra)
+	v, _ := sourcesByMap.LoadOrStore(key, src)
+	return v.(*globalSources)
+}
+
+// GlobalsIntact reports how the caller's globals maps differ from what the caller built ("" = intact).
+func GlobalsIntact(globals map[string]interface{}) string {
+	src := sourcesOf(globals)
+	if a, b := strings.Join(sortedKeys(src.common), ","), strings.Join(src.commonKeys, ","); a != b {
+		return "the first globals map handed to AddGlobalsMap now has keys [" + a + "], the caller built it with [" + b + "]"
+	}
+	if a, b := strings.Join(sortedKeys(src.extra), ","), strings.Join(src.extraKeys, ","); a != b {
+		return "the second globals map handed to AddGlobalsMap now has keys [" + a + "], the caller built it with [" + b + "]"
+	}
+	return ""
 }
 
 func msgNodes(n ast.Node, out *[]*ast.MsgNode) {
